@@ -68,6 +68,21 @@ def pushLines (acc : Acc) (lines : List Rat) : Except PyErr (Acc × Bool) :=
       .ok ({ yielded := more.dropLast.reverse ++ (current + acc.indent) :: acc.yielded,
              current := lastLine, indent := 0 }, lastLine == 0)
 
+/-- the box under its `trailing_collapsible_space` flags (`inline_line_widths` does not read the flag) -/
+def unwrap : Node → Node
+  | .flagged n => unwrap n
+  | n => n
+
+/-- `lines = [next(lines)]` / `list(lines)` and the two `adjust` calls on an inline child -/
+def boxLines (outer firstLine : Bool) (ls rs : Rat) (ls0 : List Rat) : Except PyErr (List Rat) :=
+  let lines := if firstLine then ls0.take 1 else ls0
+  match lines with
+  | [] => .error (.indexError "next(lines)")
+  | [only] => .ok [adjust outer ls rs only true true]
+  | first :: more =>
+    .ok (adjust outer ls rs first true false :: more.dropLast ++
+      [adjust outer ls rs (more.getLast?.getD 0) false true])
+
 /-- the `for child in box.children[skip:]` loop of `inline_line_widths` -/
 def widthsLoop (st : Style) (minimum outer firstLine : Bool) (rec : Rec) :
     List Node → Acc → Bool → Option Skip → Except PyErr (List Rat)
@@ -84,6 +99,14 @@ def widthsLoop (st : Style) (minimum outer firstLine : Bool) (rec : Rec) :
       adjusted.bind fun lines' =>
         (pushLines acc lines').bind fun r =>
           widthsLoop st minimum outer firstLine rec rest' r.1 r.2 none
+  | .flagged n :: rest', acc, isLineStart, sub =>
+    match unwrap n with
+    | .box ls rs _ ckids =>
+      (rec ckids isLineStart sub).bind fun ls0 =>
+        (boxLines outer firstLine ls rs ls0).bind fun lines' =>
+          (pushLines acc lines').bind fun r =>
+            widthsLoop st minimum outer firstLine rec rest' r.1 r.2 none
+    | _ => .error (.assertFailed "trailing_collapsible_space on a text box")
   | .text s :: rest', acc, isLineStart, sub =>
     match sub with
     | some (.mk _ (some _)) => .error (.assertFailed "skip_stack is None")
@@ -135,6 +158,7 @@ mutual
 def lastText : Node → Option Text
   | .text s => some s
   | .box _ _ _ kids => lastTextL kids
+  | .flagged n => lastText n
 def lastTextL : List Node → Option Text
   | [] => none
   | [n] => lastText n
